@@ -1189,6 +1189,20 @@ func (w *world) scripted(prop string, sc int, rng *mrand.Rand) {
 				T.oracle("C06", "request forwarded after a login that was rejected", nil, w.replay())
 			}
 		}
+		if res.ok && sc%3 != 1 { // a second user of the same instance, with groups of their own (listed or not), with a token of another
+			// size: the two alternate, and each request is judged on - and forwarded with - its own session's e-mail and token
+			w.newBrowser()
+			o2 := w.randomTokOpts(rng, true)
+			o2.email = "second.user@example.com"
+			o2.groups = [][]interface{}{{"staff"}, {"admin", "staff"}, nil, {"other"}}[sc/3%4]
+			o2.blob = []int{9000, 0, 3000, 30000}[sc/3%4]
+			w.fullLogin("/start-second", o2, []string{"", "rt-2"}[sc/3%2], rng)
+			for i := 0; i < 6; i++ {
+				w.switchBrowser(i % 2)
+				w.plain("/alternating", w.randomReqSpec(rng, prop), rng)
+			}
+			T.stat("handler.two-users-alternating")
+		}
 	case "C01":
 		if sc%3 == 2 {
 			w.refreshSweep(sc/3, rng, "")
